@@ -35,6 +35,10 @@
 #include <stdlib.h>
 #include "of_openfec_api.h"
 
+#ifdef OF_VERIF
+of_verif_event_hook_t	of_verif_event_hook = NULL;
+#endif
+
 void* of_malloc (size_t	size)
 {
 	return malloc (size);
